@@ -214,10 +214,24 @@ class _STIXBase(collections.abc.Mapping):
         # Establish property order: spec-defined, toplevel extension, custom.
         toplevel_extension_props = registered_toplevel_extension_props.keys() \
             | (kwargs.keys() - self._properties.keys() - custom_kwargs)
+        # (A set has no stable order: sort, so that an object and what its
+        # serialization parses back to list these properties alike.  With an
+        # unregistered toplevel-property-extension every extra property is
+        # taken for an extension property when the text is read back, so
+        # they form one sorted run.)
+        unregistered_ext_props = \
+            toplevel_extension_props - registered_toplevel_extension_props.keys()
+        if has_unregistered_toplevel_extension:
+            extra_order = sorted(
+                unregistered_ext_props | all_custom_prop_names,
+            )
+        else:
+            extra_order = sorted(unregistered_ext_props) \
+                + sorted(all_custom_prop_names)
         property_order = itertools.chain(
             self._properties,
-            toplevel_extension_props,
-            sorted(all_custom_prop_names),
+            registered_toplevel_extension_props,
+            extra_order,
         )
 
         setting_kwargs = {}
